@@ -201,6 +201,10 @@ class ProgGen:
             v = self.fresh()
             lines.append(f"{ind}{v} = func.call @{h}({a}, {b}) : (i32, i32) -> i32")
             pool.setdefault("i32", []).append(v)
+            if c.externs:
+                # make the callee's result observable (effect log) even if nothing else uses it
+                self.ext_sigs["ext_i32"] = "i32"
+                lines.append(f"{ind}func.call @ext_i32({v}) : (i32) -> ()")
         elif k == "if":
             cnd = self.pick(pool, "i1", lines, ind)
             tys = [self.rng.choice(c.int_types + c.float_types) for _ in range(self.rng.randint(0, 2))]
@@ -317,12 +321,37 @@ class ProgGen:
         self.helpers.append(name)
         return f"func.func @{name}(%h0: i32, %h1: i32) -> i32 {{\n{body}\n  func.return {r} : i32\n}}\n"
 
+    def recursive_helper(self) -> str:
+        """A directly recursive function (decreasing counter) in which values defined before the
+        recursive call are used after it; scf.if or cf.cond_br flavour.  Bounded depth: callers pass
+        a small non-negative first argument (masked with `andi 3`)."""
+        name = f"helper{len(self.helpers)}"
+        op1 = self.rng.choice(["addi", "muli", "xori", "subi"])
+        op2 = self.rng.choice(["addi", "subi", "xori", "muli"])
+        k = self.rng.choice([1, 2, 3, 5, 7])
+        pre = (f"  %z = arith.constant 0 : i32\n  %o = arith.constant 1 : i32\n  %k = arith.constant {k} : i32\n"
+               f"  %m = arith.constant 3 : i32\n  %n = arith.andi %h0, %m : i32\n"
+               f"  %done = arith.cmpi eq, %n, %z : i32\n")
+        rec = (f"    %n1 = arith.subi %n, %o : i32\n    %x = arith.{op1} %h1, %k : i32\n"
+               f"    %rr = func.call @{name}(%n1, %x) : (i32, i32) -> i32\n"
+               f"    %y = arith.{op2} %rr, %x : i32\n    %y2 = arith.addi %y, %n : i32\n")
+        if self.cfg.scf_if and self.rng.random() < 0.5:
+            body = (pre + "  %r = scf.if %done -> (i32) {\n    scf.yield %h1 : i32\n  } else {\n" + rec
+                    + "    scf.yield %y2 : i32\n  }\n  func.return %r : i32\n")
+        else:
+            body = (pre + "  cf.cond_br %done, ^base, ^rec\n^base:\n  func.return %h1 : i32\n^rec:\n"
+                    + rec.replace("    ", "  ") + "  func.return %y2 : i32\n")
+        self.helpers.append(name)
+        return f"func.func @{name}(%h0: i32, %h1: i32) -> i32 {{\n{body}}}\n"
+
     def program(self) -> dict[str, Any]:
         c = self.cfg
         self.n = 0; self.nb = 0; self.ext_sigs = {}; self.helpers = []
         funcs: list[str] = []
         if c.calls and self.rng.random() < 0.4:
             funcs.append(self.helper())
+        if c.calls and (c.cf or c.scf_if) and self.rng.random() < 0.35:
+            funcs.append(self.recursive_helper())
         all_t = c.int_types + c.float_types
         arg_tys = [self.rng.choice(all_t) for _ in range(self.rng.randint(1, 4))]
         args = [f"%a{i}" for i in range(len(arg_tys))]
